@@ -739,3 +739,24 @@ def episode_traces(scn, rec):
                 "q": q,
             })
     return out
+
+
+def knn_pre_scenario(rng, metric="euclidean", lattice=False):
+    """KNNSupervisedOPF on a pre-computed n x n matrix (the only shape it accepts) with a permuted index array; validation
+    and query samples are rows of the same matrix, addressed through their own index arrays."""
+    np = _np()
+    n = rng.randrange(5, 12)
+    r = np.random.default_rng(rng.randrange(2**31))
+    kcls = rng.choice([2, 2, 3])
+    y = relabel([rng.randrange(kcls) for _ in range(n)])
+    Z = r.integers(0, 4, size=(n, 2)).astype(float) if lattice else r.normal(size=(n, 2)) + 2.5 * np.array(y)[:, None]
+    I_train = list(range(n))
+    rng.shuffle(I_train)
+    Iv = rng.sample(range(n), rng.randrange(2, 5))
+    yv = [y[i] for i in Iv]
+    yv[0] = max(y)
+    Q = [rng.randrange(n) for _ in range(rng.randrange(4, 10))]
+    mk = rng.randrange(1, min(5, n - 1))
+    scn = {"kind": "knn", "mode": "pre", "metric": metric, "Z": Z.tolist(), "D": None, "I_train": I_train, "Y": [y[i] for i in I_train],
+           "I_val": Iv, "Yv": yv, "min_k": 1, "max_k": mk, "Q": Q, "propagate": False, "pass_I": True, "single_predict": False}
+    return scn if materialise(scn) else None
